@@ -356,3 +356,88 @@ Theorem C11_step_inv :
          Inv n gens start (S t) (flush (List.map (paint_all (all_nbrs gens cs)) cs)).
 Proof. exact @step_inv. Qed.
 Print Assumptions C11_step_inv.
+
+From V Require Import Base Tensor Graph GraphProofs GraphImpl Hash Def Paths BfsStep Bfs BfsRun BfsProofs PathsProofs Mitm MitmProofs PathRun MitmFind Interactive InteractiveBetween Beam BeamProofs Walks WalksProofs AlgoRun InstPerm InstSmall InstBfs InstPaths InstShared InstMatrix InstMatrixBfs InstBeam InstWalks.
+
+(* END TO END on impl_of d: whenever the main BFS model completes, the interactive engine reports the same sizes and an unthinned BFS-mode walk counts exactly those sizes per distance (NoColl only) *)
+Theorem C11_engines_agree_perm :
+  forall d : gdesc,
+         wf_perm_desc d ->
+         NoCollOn (impl_of d) (Ustates d) ->
+         flag_sound d ->
+         forall (cfg : bfs_cfg) (start : state),
+         Ustates d start ->
+         BinInt.Z.le (BinNums.Zpos BinNums.xH) (batch_size cfg) ->
+         forall o : bfs_out,
+         bfs (impl_of d) cfg (start :: nil) = Ok o ->
+         completed o = true ->
+         List.map (length (A:=BinNums.Z))
+           (ihashes (ibfs_after (impl_of d) (start :: nil) (length (sizes o) - 1))) = 
+         sizes o /\
+         (forall (width length_ : nat) (perms : list (list nat)) (x : list state) (y : list nat),
+          1 <= width ->
+          (forall s : nat, List.In s (sizes o) -> s <= width) ->
+          length (sizes o) <= length_ ->
+          walks_bfs (impl_of d) width length_ start perms = Ok (x, y) ->
+          forall k : nat, walk_count x y k = List.nth k (sizes o) 0).
+Proof. exact @engines_agree_perm. Qed.
+Print Assumptions C11_engines_agree_perm.
+
+(* the same with no hash hypothesis for one-word identity-hash codes *)
+Theorem C11_engines_agree_perm_unconditional :
+  forall d : gdesc,
+         wf_perm_desc d ->
+         g_hasher d = HIdentity ->
+         single_word d ->
+         flag_sound d ->
+         forall (cfg : bfs_cfg) (start : state),
+         Ustates d start ->
+         BinInt.Z.le (BinNums.Zpos BinNums.xH) (batch_size cfg) ->
+         forall o : bfs_out,
+         bfs (impl_of d) cfg (start :: nil) = Ok o ->
+         completed o = true ->
+         List.map (length (A:=BinNums.Z))
+           (ihashes (ibfs_after (impl_of d) (start :: nil) (length (sizes o) - 1))) = 
+         sizes o /\
+         (forall (width length_ : nat) (perms : list (list nat)) (x : list state) (y : list nat),
+          1 <= width ->
+          (forall s : nat, List.In s (sizes o) -> s <= width) ->
+          length (sizes o) <= length_ ->
+          walks_bfs (impl_of d) width length_ start perms = Ok (x, y) ->
+          forall k : nat, walk_count x y k = List.nth k (sizes o) 0).
+Proof. exact @engines_agree_perm_unconditional. Qed.
+Print Assumptions C11_engines_agree_perm_unconditional.
+
+(* the same for matrix groups (wf_matrix_desc, NoCollMat) *)
+Theorem C11_engines_agree_matrix_desc :
+  forall d : gdesc,
+         wf_matrix_desc d = true ->
+         NoCollMat d ->
+         forall (cfg : bfs_cfg) (start : state),
+         Umat d start ->
+         BinInt.Z.le (BinNums.Zpos BinNums.xH) (batch_size cfg) ->
+         forall o : bfs_out,
+         bfs (impl_of d) cfg (start :: nil) = Ok o ->
+         completed o = true ->
+         List.map (length (A:=BinNums.Z))
+           (ihashes (ibfs_after (impl_of d) (start :: nil) (length (sizes o) - 1))) = 
+         sizes o /\
+         (forall (width length_ : nat) (perms : list (list nat)) (x : list state) (y : list nat),
+          1 <= width ->
+          (forall s : nat, List.In s (sizes o) -> s <= width) ->
+          length (sizes o) <= length_ ->
+          walks_bfs (impl_of d) width length_ start perms = Ok (x, y) ->
+          forall k : nat, walk_count x y k = List.nth k (sizes o) 0).
+Proof. exact @engines_agree_matrix_desc. Qed.
+Print Assumptions C11_engines_agree_matrix_desc.
+
+(* an exhaustive (state, distance) listing has exactly |layer k| entries at distance k *)
+Theorem C11_exhaustive_growth :
+  forall (gens : list (state -> state)) (start : state) (x : list state) (y : list nat),
+         List.NoDup x ->
+         (forall (t : state) (k : nat),
+          (exists i : nat, i < length x /\ List.nth i x nil = t /\ List.nth i y 0 = k) <->
+          List.In t (layer state st_eq_dec gens (start :: nil) k)) ->
+         forall k : nat, walk_count x y k = length (layer state st_eq_dec gens (start :: nil) k).
+Proof. exact @exhaustive_growth. Qed.
+Print Assumptions C11_exhaustive_growth.
